@@ -530,6 +530,36 @@ func (fr *Frame) evalCall(e *Expr, env *Env, st *State, old *State) *Val {
 			evalFail("atloop(e) is only meaningful in a loop invariant")
 		}
 		return fr.eval(e.args[0], env.loopPreEnv, env.loopPre, old)
+	case "signalled":
+		// signalled(p): Signal/Broadcast has been called on the condition variable inside the struct p points to
+		x := arg(0)
+		u.ghostSort["signalled"] = "(Array Ref Bool)"
+		if u.srt(x) != "Ref" && x.Ref != "" {
+			// the variable of a type invariant: the cell's own address
+			return term(fmt.Sprintf("(select %s %s)", u.ghostOf(st, "signalled"), x.Ref), B)
+		}
+		return term(fmt.Sprintf("(select %s %s)", u.ghostOf(st, "signalled"), fr.refOf(x)), B)
+	case "locked":
+		// locked(p): the monitor declared for the struct p points to is held
+		x := arg(0)
+		pt, ok := x.Ty.Underlying().(*types.Pointer)
+		if !ok {
+			evalFail("locked(p) needs a pointer to a struct with a declared monitor")
+		}
+		if n, ok := pt.Elem().(*types.Named); ok && n.Obj().Pkg() != nil {
+			key := n.Obj().Pkg().Name() + "." + n.Obj().Name()
+			for _, m := range u.eng.contracts.monitors {
+				if m.TypeName == key {
+					hk := heldKey(m, x.T)
+					u.ghostSort[hk] = "Bool"
+					if _, ok := st.ghost[hk]; !ok {
+						return term(u.ghostOf(st, hk), B)
+					}
+					return term(st.ghost[hk], B)
+				}
+			}
+		}
+		evalFail("locked: no monitor declared for %v", pt.Elem())
 	case "closed":
 		// closed(ch): the channel has been closed
 		x := arg(0)
@@ -912,7 +942,14 @@ func (fr *Frame) refOf(x *Val) string {
 type invExpr = *Expr
 
 func (fr *Frame) loopInvariants(ord int) []*Expr {
-	if fr.contract == nil || fr.depth != 0 {
+	if fr.depth != 0 {
+		// an inlined function (typically a deferred closure): its own contract may carry loop invariants
+		if ct := fr.u.eng.contractFor(fr.fn); ct != nil {
+			return ct.LoopInv[ord]
+		}
+		return nil
+	}
+	if fr.contract == nil {
 		return nil
 	}
 	return fr.contract.LoopInv[ord]
@@ -927,6 +964,24 @@ func (fr *Frame) baseEnv() *Env {
 	}
 	for k, v := range fr.ctVars {
 		env.vars[k] = v
+	}
+	if fr.depth != 0 {
+		// inlined activation: parameters and captured variables by their source names
+		for _, p := range fr.fn.Params {
+			if v, ok := fr.vals[p]; ok {
+				env.vars[p.Name()] = v
+			}
+		}
+		env.cells = map[string]*Val{}
+		for i, fv := range fr.fn.FreeVars {
+			if i < len(fr.binds) && fr.binds[i] != nil {
+				if _, isPtr := fv.Type().Underlying().(*types.Pointer); isPtr && fr.binds[i].K == vTerm {
+					env.cells[fv.Name()] = fr.binds[i]
+				} else {
+					env.vars[fv.Name()] = fr.binds[i]
+				}
+			}
+		}
 	}
 	return env
 }
